@@ -15,4 +15,4 @@ WHERE IT LIVES: files {', '.join(p['anchors']['files'])}; mechanisms: {'; '.join
 
 Task: produce TWO different, realistic changes to the library's source (each a small patch such as a developer could plausibly introduce by mistake during a refactoring, optimisation or bug fix) that each BREAK this property while (a) the package still imports and (b) the existing test suite shows no new failure. Make them SUBTLE: each must need something specific to manifest — an unusual input (a tie, a touching configuration, a particular size / page size / partition count, an empty or missing element, a non-zero buffer offset, a particular ordering), a multi-step sequence of operations, a fault or crash at a particular point, a particular interleaving, or two cooperating sites that each look fine alone — not something ordinary use would expose at once. The two changes should be in different mechanisms/files where possible.
 
-For each change i ∈ {{1,2}} write into `{wt}/_seed/{pid}_{{i}}/`: `patch.diff` (output of `git diff` for that change alone, applying cleanly to the unmodified worktree with `git apply`), `demo.py` (a small self-contained program that exits 0 and prints PASS on the unmodified code and exits 1 printing FAIL on the changed code, demonstrating the property violation through the public API), and `meta.json` with keys: property, title (one line), what_it_needs_to_manifest, files_touched, how_verified (the commands you ran and what you saw, incl. the test-suite result with the change applied). Work on one change at a time: apply, verify demo fails, run the suite, save `git diff`, then `git checkout -- .` and verify the demo passes again. Leave the worktree clean (no uncommitted source changes) at the end; the `_seed` directory stays. Final answer: a short summary of the two changes.""")
+For each change i ∈ {{1,2}} write into `{wt}/_seed/{pid}_{{i}}/`: `patch.diff` (output of `git diff` for that change alone, applying cleanly to the unmodified worktree with `git apply`), `demo.py` (a small self-contained program that exits 0 and prints PASS on the unmodified code and exits 1 printing FAIL on the changed code, demonstrating the property violation through the public API), and `meta.json` with keys: property, title (one line), what_it_needs_to_manifest, files_touched, how_verified (the commands you ran and what you saw, incl. the test-suite result with the change applied). Never use `git stash` (the stash is shared between worktrees of one repository and other people use sibling worktrees): to set a change aside use `git diff > file; git checkout -- .; git apply file`. When running the test suite add `--ignore=_seed`. Work on one change at a time: apply, verify demo fails, run the suite, save `git diff`, then `git checkout -- .` and verify the demo passes again. Leave the worktree clean (no uncommitted source changes) at the end; the `_seed` directory stays. Final answer: a short summary of the two changes.""")
